@@ -832,9 +832,13 @@ class Gen:
         for k in range(rng.choice([1, 1, 2])):
             if k:
                 self.punct(',', 'opt')
-            self.name_token(self.g(), allow_quoted=False)
-            self.kw('AS')
-            o = self.open_paren('req')
+            # comments inside a CTE header (name, AS) can make get_type()
+            # answer UNKNOWN (DESIGN §7 N2): whitespace only there
+            self.name_token('req!', allow_quoted=False)
+            self.kw('AS', 'req!')
+            # 'req!': whitespace only -- a comment between AS and the CTE's
+            # parenthesis makes get_type() answer UNKNOWN (DESIGN §7 N2)
+            o = self.open_paren('req!')
             self.select_core(max(depth - 1, 0), scalar=False)
             self.close_paren(o)
         x = rng.random()
@@ -989,6 +993,8 @@ class Layout:
         rng = self.rng
         if cls == 'none':
             return ''
+        if cls.endswith('!'):            # whitespace only, never a comment
+            return self.one_ws()
         parts = []
         ncom = 0
         if self.comments and rng.random() < self.comments:
